@@ -21,6 +21,7 @@ import (
 
 	"github.com/canopy-network/canopy/fsm"
 	"github.com/canopy-network/canopy/lib"
+	"github.com/canopy-network/canopy/lib/crypto"
 	"github.com/cockroachdb/pebble/v2"
 	"github.com/cockroachdb/pebble/v2/vfs"
 	"verifharness/sim"
@@ -33,6 +34,8 @@ type stats struct {
 	ByHeight          map[string]int `json:"images_by_recovered_height"`
 	Continue          int            `json:"continuations_checked"`
 	ConcurrentCommits int            `json:"commits_verified_while_other_stores_over_the_database_were_reset"`
+	BigBlockTxs       int            `json:"transactions_in_the_large_block"`
+	BigBlockLogBytes  int            `json:"log_bytes_written_by_the_large_block"`
 	Samples           []string       `json:"samples"`
 }
 
@@ -101,6 +104,7 @@ func main() {
 	nChains := flag.Int("chains", 1, "reference chains")
 	nBlocks := flag.Int("blocks", 8, "blocks per chain")
 	stride := flag.Int("stride", 257, "distance in bytes between crash points in the write-ahead log")
+	bigTxs := flag.Int("bigtxs", 1500, "transfers offered to the large last block of the first chain")
 	outDir := flag.String("outdir", ".", "output directory")
 	_ = flag.String("replay", "", "replay file (cases regenerate deterministically from the seed)")
 	concChild := flag.Bool("concurrent-child", false, "internal: run the concurrent-copies scenario and exit")
@@ -163,13 +167,64 @@ func main() {
 				_ = n.Store.DB().Flush() // part of the history moves from the log into a table file
 			}
 		}
+		// the last block is a LARGE one (well over a thousand transfers: its commit writes more than a megabyte of state, tree
+		// nodes and index entries): however the store gets that much data to the log, a crash in the middle of it must re-open
+		// at the height before it, never in between
+		bigStart := -1
+		if c == 0 {
+			_ = n.Store.DB().LogData(nil, pebble.Sync)
+			f0, w0 := readAll(fs, dir)
+			bigStart = len(f0[w0])
+			n.Enter()
+			h := n.C.FSM.Height()
+			sendFee := uint64(10000)
+			if fp, e := n.C.FSM.GetParamsFee(); e == nil && fp != nil {
+				sendFee = fp.SendFee
+			}
+			var txs [][]byte
+			for i := 0; i < *bigTxs; i++ {
+				k := sim.BLSKey(i % 9)
+				t, terr := fsm.NewSendTransaction(k.Priv, crypto.NewAddress(sim.BLSKey((i+1)%9).Addr), 1, 1, 1, sendFee, h, fmt.Sprintf("big%d", i))
+				if terr == nil {
+					bz, _ := lib.Marshal(t)
+					txs = append(txs, bz)
+				}
+			}
+			if prop, perr := n.Propose(txs); perr == nil {
+				view := n.CommitView()
+				if vs, verr := n.Committee(view.RootHeight); verr == nil {
+					if qc, qerr := sim.MakeQC(vs, view, sim.BLSKey(0).Pub, prop, sim.AllSigners(vs)); qerr == nil {
+						if derr := n.Deliver(sim.CloneQC(qc), false); derr == nil {
+							n.Enter()
+							blk, _ := n.C.FSM.LoadBlock(n.C.FSM.Height() - 1)
+							refs = append(refs, ref{ver: n.Store.Version(), blkH: n.C.FSM.Height() - 1, scan: digest(n.C.FSM), root: blk.BlockHeader.StateRoot, hash: blk.BlockHeader.Hash, qc: qc})
+							st.BigBlockTxs = len(blk.Transactions)
+						}
+					}
+				}
+			}
+		}
 		committed := len(refs) - 1
 		_ = n.Store.DB().LogData(nil, pebble.Sync)
 		files, wal := readAll(fs, dir)
 		walLen := len(files[wal])
 		var cuts []int
 		for p := 0; p < walLen; p += *stride {
+			if bigStart >= 0 && p > bigStart {
+				break
+			}
 			cuts = append(cuts, p)
+		}
+		if bigStart >= 0 && walLen > bigStart {
+			// inside the large block's stretch of the log: a few dozen crash points (every image costs a node start)
+			st.BigBlockLogBytes = walLen - bigStart
+			step := (walLen - bigStart) / 40
+			if step < 1 {
+				step = 1
+			}
+			for p := bigStart; p < walLen; p += step {
+				cuts = append(cuts, p)
+			}
 		}
 		cuts = append(cuts, walLen-1, walLen)
 		sort.Ints(cuts)
